@@ -8,7 +8,7 @@ Definition ex_stage (reqs : list nat) (ntasks : nat) : stage :=
      s_mutex := None; s_choice := None; s_max_jumps := None; s_split_or := false; s_conds := []; s_status := NOT_STARTED; s_started := false;
      s_ended := false; s_version := 0; s_fired := false; s_branches := []; s_bypass := false; s_jump_count := 0;
      s_buffered := []; s_signal := None; s_has_exc := false; s_plan_pending := false; s_hydrated := [];
-     s_ctx := []; s_outs := []; s_tasks := repeat (mk_task false) ntasks |}.
+     s_ctx := []; s_outs := []; s_tasks := repeat (mk_task false) ntasks; s_syn := top_syn 0; s_onfail := false |}.
 
 (* chain A -> B, one task each *)
 Definition ex_chain : state := init_state [ex_stage [] 1; ex_stage [0] 1] None.
